@@ -33,7 +33,7 @@ STATE_MEASURE = "(method, order vs length class, operation kinds before the judg
 PROBES = [
     "node_exact", "between_nodes", "first_interval", "last_interval", "outside_refused", "interp_after_inplace_frame_change", "interp_after_inplace_form_change",
     "interp_after_setting_change", "interp_after_pickle", "interp_after_copy", "interp_next_to_suspended_iteration", "polynomial_reproduced", "too_short_table_refused", "node_exact_to_rounding_linear", "converted_copy_taken",
-    "cache_dropped", "other_ephemeris_used_in_the_same_process", "interp_after_other_ephemeris", "column_extracted_and_changed", "interp_after_column_changed",
+    "cache_dropped", "other_ephemeris_used_in_the_same_process", "interp_after_other_ephemeris", "column_extracted_and_changed", "interp_after_column_changed", "interpolated_point_changed_by_caller", "interp_after_result_changed_by_caller", "frame_change_failed_on_first_point", "interp_after_failed_frame_change", "other_spelling_of_method_refused",
 ]
 REAL_VS_STUB = "real: beyond.orbits.ephem.Ephem, beyond.utils.interp (Interp / DatedInterp), StateVector frame / form conversions, pickle; stub: none; model: a fresh Ephem rebuilt from the current points on a pristine node, the stored points themselves (node exactness), the generating polynomial"
 ASSUMPTIONS = [
@@ -96,6 +96,18 @@ def gen_plan(rng, tier, i):
     if child.random() < 0.3:
         # another ephemeris alive in the same process: same dates at both ends of many interpolation windows, other dates (and values) inside
         ops.insert(child.randint(0, max(0, len(ops) // 2)), {"op": "decoy", "seed": child.randrange(1 << 30), "p": child.choice([0.25, 0.4, 0.6]), "shift": child.choice([0.3, -0.3, 0.11])})
+    for o_ in list(ops):
+        if o_["op"] == "interp" and o_["where"] not in ("before", "after") and child.random() < 0.3:
+            # the caller changes the point it was handed (in place), and some ask for the same date again right away
+            o_["scribble"] = child.choice(["form", "values", "frame"])
+            if child.random() < 0.6:
+                ops.insert(ops.index(o_) + 1, dict(o_, scribble=None))
+    if child.random() < 0.2:
+        # an in-place frame change that fails on the very first point (a frame attached to an object which does not cover these dates)
+        ops.insert(child.randint(0, len(ops)), {"op": "set_frame_fail"})
+    if child.random() < 0.2:
+        # other spellings of the method names (an OEM header says "LINEAR" / "Lagrange"), set after or before the first use
+        ops.insert(child.randint(0, len(ops)), {"op": "set_method", "method": child.choice(["Linear", "LINEAR", "Lagrange", "LAGRANGE"])})
     if child.random() < 0.25:
         # the caller extracts a column (the example of the class docstring) and works on it in place
         ops.insert(child.randint(0, len(ops)), {"op": "column_scribble", "col": child.choice([0, 1, 2, 3, 5, "0:3", "all"]), "factor": child.choice([1e-3, 0.0, -1.0])})
@@ -247,7 +259,7 @@ class World:
         if self.since:
             ctx.nontrivial = True
             for s_ in self.since:
-                ctx.probe({"frame": "interp_after_inplace_frame_change", "form": "interp_after_inplace_form_change", "setting": "interp_after_setting_change", "pickle": "interp_after_pickle", "copy": "interp_after_copy", "iter": "interp_next_to_suspended_iteration", "cache": "cache_dropped", "decoy": "interp_after_other_ephemeris", "column": "interp_after_column_changed"}[s_])
+                ctx.probe({"frame": "interp_after_inplace_frame_change", "form": "interp_after_inplace_form_change", "setting": "interp_after_setting_change", "pickle": "interp_after_pickle", "copy": "interp_after_copy", "iter": "interp_next_to_suspended_iteration", "cache": "cache_dropped", "decoy": "interp_after_other_ephemeris", "column": "interp_after_column_changed", "scribble": "interp_after_result_changed_by_caller", "failed_frame": "interp_after_failed_frame_change"}[s_])
         ctx.state(method, "short" if npts < need else ("tight" if npts == need else "long"), w, hist)
         if w in ("before", "after"):
             if not isinstance(exc, ValueError):
@@ -261,12 +273,21 @@ class World:
             else:
                 ctx.probe("too_short_table_refused")
             return
+        if exc is not None and isinstance(exc, ValueError) and getattr(self, "m_method_raw", None) not in (None, "linear", "lagrange"):
+            # the method was last set with another spelling ("Linear", "LAGRANGE"): refusing it is as good as honouring it
+            ctx.probe("other_spelling_of_method_refused")
+            return
         if exc is not None:
             ctx.violate("interpolation", dict(fp, kind="unexpected_exception", exc=type(exc).__name__), f"{where}: interpolation at a date inside the table ({w}, point {k} of {npts}, {method} order {order}) raised {type(exc).__name__}: {exc}")
             return
         got = np.array(r, dtype=float)
         ctx.ev("interp", w, k, fhex(got), r.frame.name, r.form.name)
-        # ---- keeps the ephemeris' frame and form
+        # ---- keeps the ephemeris' frame and form: the labels its points carry
+        with n:
+            plabels = {(p_.frame.name, p_.form.name) for p_ in pts}
+        if len(plabels) == 1 and (r.frame.name, r.form.name) not in plabels:
+            ctx.violate("frame-form-kept", dict(fp, kind="labels_differ_from_points"), f"{where}: interpolated point is labelled {r.frame.name}/{r.form.name}, every point of the ephemeris is {sorted(plabels)[0][0]}/{sorted(plabels)[0][1]} (since the last query: {hist})")
+            return
         if (r.frame.name, r.form.name) != (eframe, eform):
             ctx.violate("frame-form-kept", dict(fp, kind="wrong_labels"), f"{where}: interpolated point is labelled {r.frame.name}/{r.form.name}, the ephemeris is in {eframe}/{eform}")
         # ---- exact at its own dates
@@ -324,6 +345,21 @@ class World:
                 truth = np.array(orb.propagate(date).copy(frame=eframe, form="cartesian"), dtype=float)
             ctx.observe(f"orbit_err_m_order{order}_step{int(spec['step_s'])}", float(np.linalg.norm(got[:3] - truth[:3])))
         self.since = set()
+        if op.get("scribble"):
+            # the caller owns the point it was handed
+            with n:
+                try:
+                    if op["scribble"] == "form":
+                        r.form = "spherical" if r.form.name != "spherical" else "cartesian"
+                    elif op["scribble"] == "frame":
+                        r.frame = "ITRF" if r.frame.name != "ITRF" else "EME2000"
+                    else:
+                        r[:3] = np.array(r[:3], dtype=float) / 1000.0
+                except Exception:  # noqa
+                    pass
+            ctx.fault("consumer_mutates_item")
+            ctx.probe("interpolated_point_changed_by_caller")
+            self.since.add("scribble")
 
     def op_set_frame(self, op, where):
         with self.node:
@@ -354,8 +390,39 @@ class World:
     def op_set_method(self, op, where):
         with self.node:
             self.eph.method = op["method"]
-        self.m_method = op["method"]
+        self.m_method = op["method"].lower()
+        self.m_method_raw = op["method"]
         self.since.add("setting")
+
+    def op_set_frame_fail(self, op, where):
+        """ephem.frame = <frame attached to an object that does not cover the dates of the table>: the conversion of the very first
+        point fails, the ephemeris stays what it was."""
+        ctx = self.ctx
+        n = self.node
+        with n:
+            e = self.eph
+            pts = list(e)
+            if not getattr(self, "late_frame", None):
+                Kepler = n.mod("beyond.propagators.kepler").Kepler
+                d0 = pts[-1].date + n.timedelta(days=2)
+                tgt = n.Orbit([7.3e6, 0.01, 0.8, 1.0, 2.0, 3.0], d0, "keplerian", "EME2000", Kepler())
+                tgt.ephem(start=d0, stop=n.timedelta(minutes=30), step=n.timedelta(minutes=3)).as_frame("LateTarget")
+                self.late_frame = "LateTarget"
+            before = describe_points(e)
+            try:
+                e.frame = self.late_frame
+                failed = False
+            except Exception:  # noqa
+                failed = True
+            after = describe_points(e)
+        if not failed:
+            return
+        ctx.fault("callee_fail_natural")
+        ctx.probe("frame_change_failed_on_first_point")
+        self.since.add("failed_frame")
+        ctx.checks += 1
+        if before != after:
+            ctx.violate("history-independence", {"kind": "points_changed_by_failed_frame_change", "size": "large"}, f"{where}: ephem.frame = {self.late_frame} failed on the first point but the points of the ephemeris changed")
 
     def op_iter_start(self, op, where):
         n = self.node
@@ -407,6 +474,7 @@ class World:
             self.eph = self.eph.copy()
             # Ephem.copy() builds the new ephemeris with the default method and order (no listed property says otherwise): re-read them
             self.m_method, self.m_order = str(self.eph.method).lower(), int(self.eph.order)
+            self.m_method_raw = None
         self.it = None
         self.since.add("copy")
 
